@@ -79,7 +79,8 @@ class C15(Prop):
             'context-manager exit) on 1-3 cassettes sharing one bucket with foreign objects; all 16 read_only x transient x '
             "prefix ('', a, ab, a/b) combinations enumerated first, then random ones (including two cassettes with the same "
             'prefix); for every save of a sequence the two variants of the sequence in which that save is interrupted after '
-            'its 1st / 2nd bucket mutation; rarely (~3% of the sequences) a default-prefix cassette next to one with prefix '
+            'its 1st / 2nd bucket mutation; ~12% of the sequences save a recording, delete it by closing a transient cassette on '
+            'its key prefix and save the very same recording again through the same cassette object; rarely (~3% of the sequences) a default-prefix cassette next to one with prefix '
             "'full' / 'metadata' (known finding K8); a case is non-trivial when it logged a mutation or refused a write; "
             'distinct = distinct canonical case')
     TRUSTED = ['correspondence harness harness/props/c15.py + Lean driver (Drive/S3.lean, handler c15.run)',
@@ -111,7 +112,11 @@ class C15(Prop):
             first = combos[k] if k < len(combos) else None
             k += 1
             # rarely: a default-prefix cassette next to one whose prefix is 'full' / 'metadata' (known finding K8)
-            base = self.rand_seq(rng, first, k8=(first is None and rng.random() < 0.03))
+            if first is None and rng.random() < 0.12:
+                # the SAME recording (same id, same content) saved again after its objects were deleted
+                base = self.resave_seq(rng)
+            else:
+                base = self.rand_seq(rng, first, k8=(first is None and rng.random() < 0.03))
             cases.append(base)
             cases.extend(self.crash_variants(base))
             if rng.random() < 0.15:
@@ -146,6 +151,51 @@ class C15(Prop):
                 cfgs.append({'p': rng.choice(free or PREFIXES), 'ro': rng.random() < 0.3, 'tr': rng.random() < 0.5})
         return cfgs
 
+    def resave_seq(self, rng):
+        """save a recording, delete it by closing a transient writable cassette on that key prefix (the saving cassette
+        itself or another one), then save the very same recording (same id, same data, same metadata) again through the
+        SAME cassette object, and look it up: everything discoverable must be fetchable at every point of the re-save"""
+        p = rng.choice(PREFIXES)
+        if rng.random() < 0.5:
+            cfgs = [{'p': p, 'ro': False, 'tr': True}]
+            saver = closer = 0
+        else:
+            cfgs = [{'p': p, 'ro': False, 'tr': rng.random() < 0.3}, {'p': p, 'ro': False, 'tr': True}]
+            saver, closer = 0, 1
+        if rng.random() < 0.3:
+            cfgs.append({'p': rng.choice([q for q in PREFIXES if q != p]), 'ro': rng.random() < 0.3, 'tr': rng.random() < 0.5})
+        foreign = rng.sample(FOREIGN, rng.randint(2, len(FOREIGN)))
+        ops, saves = [], []
+        for j in range(rng.choice([1, 1, 2])):
+            t = rng.choice(TIMES)
+            cat = rng.choice(CATS[:2])
+            u = 'u%03d' % j
+            rid = '%s/%s/%s' % (cat, day_str(t), u)
+            ops.append({'c': saver, 'op': 'create', 'cat': cat, 'uid': u, 't': t})
+            sv = {'c': saver, 'op': 'save', 'id': rid, 't': t}
+            m = rng.choice(METADATAS)
+            if m is not None:
+                sv['md'] = to_wire(m)['d']
+            ops.append(sv)
+            saves.append(sv)
+        if rng.random() < 0.5:
+            ops.append({'c': rng.randrange(len(cfgs)), 'op': rng.choice(['list', 'get']), 'cat': saves[0]['id'].split('/')[0],
+                        'id': saves[0]['id']})
+        ops.append({'c': closer, 'op': rng.choice(['close', 'exit'])})
+        if rng.random() < 0.4:
+            ops.append({'c': saver, 'op': 'list', 'cat': saves[0]['id'].split('/')[0]})
+        for sv in rng.sample(saves, rng.randint(1, len(saves))):
+            again = dict(sv)
+            if rng.random() < 0.3:
+                again['t'] = max(TIMES)
+            ops.append(again)
+            if rng.random() < 0.6:
+                ops.append({'c': rng.choice([saver, closer]), 'op': 'get', 'id': sv['id']})
+        ops.append({'c': saver, 'op': 'list', 'cat': saves[0]['id'].split('/')[0]})
+        ops = [{k: v for k, v in o.items() if not (o['op'] == 'list' and k == 'id') and not (o['op'] == 'get' and k == 'cat')}
+               for o in ops]
+        return self.finish(foreign, cfgs, ops)
+
     def rand_seq(self, rng, first=None, k8=False):
         cfgs = self.rand_cfgs(rng, first, k8)
         foreign = rng.sample(FOREIGN, rng.randint(2, len(FOREIGN)))
@@ -170,11 +220,19 @@ class C15(Prop):
             m = rng.choice(METADATAS)
             return None if m is None else to_wire(m)['d']
 
+        last = {}     # (cassette index, id) -> the last save op of that recording through that cassette object
+
         def emit_save(c, rid):
             o = {'c': c, 'op': 'save', 'id': rid, 't': now()}
-            m = md()
-            if m is not None:
-                o['md'] = m
+            if (c, rid) in last and rng.random() < 0.6:
+                # the very same recording again (same data, same metadata) through the same cassette object
+                if 'md' in last[(c, rid)]:
+                    o['md'] = last[(c, rid)]['md']
+            else:
+                m = md()
+                if m is not None:
+                    o['md'] = m
+            last[(c, rid)] = o
             ops.append(o)
             saved.setdefault(cfgs[c]['p'], []).append(rid)
 
